@@ -73,6 +73,15 @@ type verifC06BadEncoder struct{}
 func (verifC06BadEncoder) encode(pe packetEncoder) error { return errors.New("verif: drop connection") }
 func (verifC06BadEncoder) headerVersion() int16            { return 0 }
 
+// VerifC06GarbageFetch is returned by onFetch to answer with bytes that do not decode as an OffsetFetchResponse
+// (FetchOffset returns an error on the client side; the connection stays usable).
+var VerifC06GarbageFetch = &OffsetFetchResponse{Version: -77}
+
+type verifC06Garbage struct{}
+
+func (verifC06Garbage) encode(pe packetEncoder) error { pe.putInt8(1); return nil }
+func (verifC06Garbage) headerVersion() int16            { return 0 }
+
 // VerifC06NoAnswer is returned by onCommit to make the broker swallow the request (the client's read times out).
 var VerifC06NoAnswer = &OffsetCommitResponse{Version: -77}
 
@@ -95,7 +104,11 @@ func VerifC06Install(mb *MockBroker, t TestReporter, onCommit func(*OffsetCommit
 			}
 			return verifC06BadEncoder{}
 		case *OffsetFetchRequest:
-			return onFetch(body)
+			r := onFetch(body)
+			if r == VerifC06GarbageFetch {
+				return verifC06Garbage{}
+			}
+			return r
 		case *MetadataRequest:
 			return meta.For(body)
 		case *FindCoordinatorRequest:
